@@ -24,20 +24,33 @@ theorem subIndexes_idx (k : Int) (n : Nat) : subIndexes (.idx k) n = [] ∨ ∃ 
   · left; rw [if_pos hc]
   · right; exact ⟨i', by rw [if_neg hc]⟩
 
+theorem singleSubs_inv {subs : List SubI} (h : singleSubs subs = true) : ∃ k, subs = [.idx k] := by
+  match subs, h with
+  | [.idx k], _ => exact ⟨k, rfl⟩
+
+theorem singleNode_union (i : Info) (subs : List SubI) : singleNode (.union i subs) = singleSubs subs := by
+  match subs with
+  | [.idx k] => rfl
+  | [] => rfl
+  | [.wild] => rfl
+  | [.slicePos _ _ _] => rfl
+  | [.sliceNeg _ _ _] => rfl
+  | a :: _ :: _ => cases a <;> rfl
+
 /-- a single-valued chain meets at most one failure, and none when it selects something -/
 theorem fails_single (env : Env) : ∀ (ch : List N) (root cur : Val), singleDeep ch = true →
     (fails env ch root cur).length ≤ 1 ∧ (den env ch root cur ≠ [] → fails env ch root cur = [])
-  | [], _, _, _ => by simp [fails, failsN]
+  | [], _, _, _ => by simp [fails]
   | .root i :: rest, root, cur, h => by
-    simp only [singleDeep, singleDeepN, singleNode, Bool.true_and] at h
+    simp only [singleDeep, singleDeepN, Bool.true_and] at h
     simp only [fails, failsN, den]
     exact fails_single env rest root root h
   | .cur i :: rest, root, cur, h => by
-    simp only [singleDeep, singleDeepN, singleNode, Bool.true_and] at h
+    simp only [singleDeep, singleDeepN, Bool.true_and] at h
     simp only [fails, failsN, den]
     exact fails_single env rest root cur h
   | .child i k :: rest, root, cur, h => by
-    simp only [singleDeep, singleDeepN, singleNode, Bool.true_and] at h
+    simp only [singleDeep, singleDeepN, Bool.true_and] at h
     cases cur with
     | obj kvs =>
       simp only [fails, failsN, den]
@@ -46,7 +59,7 @@ theorem fails_single (env : Env) : ∀ (ch : List N) (root cur : Val), singleDee
       | some v => exact fails_single env rest root v h
     | null | bool _ | num _ | jnum _ | str _ | arr _ | opq _ _ => simp [fails, failsN, den]
   | .ffn i name :: rest, root, cur, h => by
-    simp only [singleDeep, singleDeepN, singleNode, Bool.true_and] at h
+    simp only [singleDeep, singleDeepN, Bool.true_and] at h
     simp only [fails, failsN, den]
     cases hf : env.ffn name with
     | none => simp
@@ -56,25 +69,20 @@ theorem fails_single (env : Env) : ∀ (ch : List N) (root cur : Val), singleDee
       | none => simp
       | some r => exact fails_single env rest root r h
   | .union i subs :: rest, root, cur, h => by
-    match subs, h with
-    | [.idx k], h =>
-      simp only [singleDeep, singleDeepN, singleNode, Bool.true_and] at h
-      cases cur with
-      | arr xs =>
-        simp only [fails, failsN, den, List.flatMap_cons, List.flatMap_nil, List.append_nil]
-        rcases subIndexes_idx k xs.length with h0 | ⟨j, h0⟩ <;> rw [h0]
-        · simp [grp]
-        · rw [grp_single]
-          simp only [List.flatMap_cons, List.flatMap_nil, List.append_nil]
-          cases hg : (if j < 0 then none else xs[j.toNat]?) with
-          | none => simp
-          | some v => exact fails_single env rest root v h
-      | null | bool _ | num _ | jnum _ | str _ | obj _ | opq _ _ => simp [fails, failsN, den]
-    | [], h => simp [singleDeep, singleDeepN, singleNode] at h
-    | [.wild], h => simp [singleDeep, singleDeepN, singleNode] at h
-    | [.slicePos _ _ _], h => simp [singleDeep, singleDeepN, singleNode] at h
-    | [.sliceNeg _ _ _], h => simp [singleDeep, singleDeepN, singleNode] at h
-    | _ :: _ :: _, h => simp [singleDeep, singleDeepN, singleNode] at h
+    simp only [singleDeep, singleDeepN, Bool.and_eq_true] at h
+    obtain ⟨hs, h⟩ := h
+    obtain ⟨k, rfl⟩ := singleSubs_inv hs
+    cases cur with
+    | arr xs =>
+      simp only [fails, failsN, den, List.flatMap_cons, List.flatMap_nil, List.append_nil]
+      rcases subIndexes_idx k xs.length with h0 | ⟨j, h0⟩ <;> rw [h0]
+      · simp [grp]
+      · rw [grp_single]
+        simp only [List.flatMap_cons, List.flatMap_nil, List.append_nil]
+        cases hg : (if j < 0 then none else xs[j.toNat]?) with
+        | none => simp
+        | some v => exact fails_single env rest root v h
+    | null | bool _ | num _ | jnum _ | str _ | obj _ | opq _ _ => simp [fails, failsN, den]
   | .afn i name param :: rest, root, cur, h => by
     simp only [singleDeep, singleDeepN, Bool.and_eq_true] at h
     obtain ⟨hp, hr⟩ := h
@@ -94,10 +102,10 @@ theorem fails_single (env : Env) : ∀ (ch : List N) (root cur : Val), singleDee
         cases hfa : f (aggArgs (chainVg param) r0 (r0 :: rs)) with
         | none => simp
         | some r => exact fails_single env rest root r hr
-  | .wild _ :: _, _, _, h => by simp [singleDeep, singleDeepN, singleNode] at h
-  | .multi _ _ _ :: _, _, _, h => by simp [singleDeep, singleDeepN, singleNode] at h
-  | .desc _ _ _ :: _, _, _, h => by simp [singleDeep, singleDeepN, singleNode] at h
-  | .filter _ _ :: _, _, _, h => by simp [singleDeep, singleDeepN, singleNode] at h
+  | .wild _ :: _, _, _, h => by simp [singleDeep, singleDeepN] at h
+  | .multi _ _ _ :: _, _, _, h => by simp [singleDeep, singleDeepN] at h
+  | .desc _ _ _ :: _, _, _, h => by simp [singleDeep, singleDeepN] at h
+  | .filter _ _ :: _, _, _, h => by simp [singleDeep, singleDeepN] at h
 
 theorem singleDeep_of_noAfn : ∀ (ch : List N), singleChain ch = true → noAfn ch = true → singleDeep ch = true
   | [], _, _ => rfl
@@ -105,7 +113,15 @@ theorem singleDeep_of_noAfn : ∀ (ch : List N), singleChain ch = true → noAfn
     simp only [singleChain, Bool.and_eq_true] at h1
     simp only [noAfn, Bool.and_eq_true] at h2
     have ih := singleDeep_of_noAfn rest h1.2 h2.2
-    cases n <;> simp_all [singleDeep, singleDeepN, noAfnN, singleNode]
+    rw [singleDeep, ih, Bool.and_true]
+    cases n with
+    | union i subs =>
+      simp only [singleDeepN]
+      rw [← singleNode_union i subs]
+      exact h1.1
+    | afn i name param => simp [noAfnN] at h2
+    | root i | cur i | child i k | ffn i name => rfl
+    | wild i | multi i ids t | desc i a b | filter i q => simp [singleNode] at h1
 
 /-! ### `ConnOK` of the chain as written gives `ConnDeep` -/
 
@@ -122,7 +138,7 @@ theorem ConnOK.right {a b : List N} (h : ConnOK (a ++ b)) : ConnOK b :=
 
 /-- every Info of `infos` belongs to a node of the chain as written -/
 theorem infos_flat : ∀ (ch : List N), ∀ j ∈ infos ch, ∃ n ∈ flat ch, j ∈ Fails.errInfos n
-  | [], j, h => by simp [infos, infosN] at h
+  | [], j, h => by simp [infos] at h
   | .afn i name param :: rest, j, h => by
     simp only [infos, infosN, List.mem_append, List.mem_cons] at h
     simp only [flat, flatN, List.mem_append, List.mem_cons]
@@ -152,7 +168,7 @@ theorem connDeep_of_flat : ∀ (ch : List N), ConnOK (flat ch) → ConnDeep ch
   | [], _ => trivial
   | .afn i name param :: rest, h => by
     simp only [flat, flatN] at h
-    simp only [ConnDeep]
+    simp only [ConnDeep, ConnDeepN]
     have hr : ConnOK (flat rest) := (ConnOK.right h).tail
     refine ⟨connDeep_of_flat param (ConnOK.left h), connDeep_of_flat rest hr, ?_, ?_⟩
     · exact h.2.1 (.afn i name param) (List.mem_append_right _ List.mem_cons_self)
@@ -172,11 +188,11 @@ theorem connDeep_of_flat : ∀ (ch : List N), ConnOK (flat ch) → ConnDeep ch
   | .root i :: rest, h | .cur i :: rest, h | .child i _ :: rest, h | .wild i :: rest, h
   | .desc i _ _ :: rest, h | .union i _ :: rest, h | .filter i _ :: rest, h | .ffn i _ :: rest, h => by
     simp only [flat, flatN] at h
-    simp only [ConnDeep]
+    simp only [ConnDeep, ConnDeepN]
     exact ⟨h.2.1 _ List.mem_cons_self, connDeep_of_flat rest h.tail⟩
   | .multi i ids twin :: rest, h => by
     simp only [flat, flatN] at h
-    simp only [ConnDeep]
+    simp only [ConnDeep, ConnDeepN]
     refine ⟨fun j hj => ?_, connDeep_of_flat rest h.tail⟩
     have := h.2.2 (.multi i ids twin) List.mem_cons_self j (by rw [errInfos_eq]; exact hj)
     rw [this]
